@@ -32,6 +32,8 @@ class ScOrd (α : Type) [Sc α] : Prop where
   not_nan_of_le : ∀ {a b : α}, a ≤ b → Sc.isNaN a = false ∧ Sc.isNaN b = false
   not_nan_of_lt : ∀ {a b : α}, a < b → Sc.isNaN a = false ∧ Sc.isNaN b = false
   le_antisymm_feq : ∀ {a b : α}, a ≤ b → b ≤ a → Sc.feq a b = true
+  feq_le : ∀ {a b : α}, Sc.feq a b = true → a ≤ b
+  feq_ge : ∀ {a b : α}, Sc.feq a b = true → b ≤ a
   fmin_def : ∀ a b : α, Sc.fmin a b =
     if Sc.isNaN a then b else if Sc.isNaN b then a else if b < a then b else a
   fmax_def : ∀ a b : α, Sc.fmax a b =
@@ -190,6 +192,16 @@ instance : ScOrd Float where
     show (a == b) = true
     rw [fbeq_iff]
     exact ⟨ha, hb, by unfold lexLt lexEq at *; omega⟩
+  feq_le := by
+    intro a b h
+    have h' : (a == b) = true := h
+    rw [fbeq_iff] at h'; rw [fle_iff]
+    exact ⟨h'.1, h'.2.1, Or.inr h'.2.2⟩
+  feq_ge := by
+    intro a b h
+    have h' : (a == b) = true := h
+    rw [fbeq_iff] at h'; rw [fle_iff]
+    exact ⟨h'.2.1, h'.1, Or.inr (by unfold lexEq at *; omega)⟩
   fmin_def a b := rfl
   fmax_def a b := rfl
   le_0_1 := by decide +kernel
